@@ -31,7 +31,7 @@ impl ScriptDirector {
         }
     }
 
-    fn io(&mut self, kind: char) -> Result<IoDec, String> {
+    fn io(&mut self, kind: char, want: usize) -> Result<IoDec, String> {
         let Some(next) = self.steps.front() else {
             return Ok(IoDec::Pending);
         };
@@ -56,7 +56,14 @@ impl ScriptDirector {
         let step = self.steps.pop_front().unwrap();
         Ok(match step {
             Step::W { acc } => IoDec::Ready(acc),
-            Step::R { got } => IoDec::Ready(got),
+            Step::R { got, want: expected } => {
+                if expected != 0 && expected != want {
+                    return Err(format!(
+                        "the client asks read() for {want} bytes, the specification's reader for {expected}"
+                    ));
+                }
+                IoDec::Ready(got)
+            }
             Step::F { r } => match r.as_str() {
                 "ok" => IoDec::Ready(0),
                 "pend" => IoDec::Pending,
@@ -72,7 +79,7 @@ impl ScriptDirector {
 
 impl Director for ScriptDirector {
     fn write(&mut self, _view: &View, _offered: &[u8]) -> IoDec {
-        match self.io('w') {
+        match self.io('w', 0) {
             Ok(dec) => dec,
             Err(msg) => {
                 self.pending_mismatch = Some(msg);
@@ -82,7 +89,7 @@ impl Director for ScriptDirector {
     }
 
     fn read(&mut self, _view: &View, _want: usize) -> IoDec {
-        match self.io('r') {
+        match self.io('r', _want) {
             Ok(dec) => dec,
             Err(msg) => {
                 self.pending_mismatch = Some(msg);
@@ -92,7 +99,7 @@ impl Director for ScriptDirector {
     }
 
     fn flush(&mut self, _view: &View) -> IoDec {
-        match self.io('f') {
+        match self.io('f', 0) {
             Ok(dec) => dec,
             Err(msg) => {
                 self.pending_mismatch = Some(msg);
